@@ -339,7 +339,9 @@ impl Gen<'_> {
     fn fresh_name(&mut self) -> String {
         self.counter += 1;
         if self.sh.exotic_names {
-            match self.rng.below(5) {
+            match self.rng.below(7) {
+                5 => format!("größe{}", self.counter),
+                6 => format!("物理/更新 {}", self.counter),
                 0 => format!("sys {}", self.counter),
                 1 => format!("sys-{}", self.counter),
                 2 => format!("mod/sys{}", self.counter),
